@@ -291,6 +291,44 @@ func cancelChild(args []string) {
 		}
 		obs.RunsReturned = obs.ScheduleReturned
 		obs.LateRunErr = true
+	case "sched-in-stage-condition":
+		// an external Cancel while the scheduling loop is evaluating the condition of a STAGE (a program that would go on
+		// for 30 s): the condition is one of the commands that are running - it is ended and the pipeline run returns
+		condScript := sc.Log + ".cond.sh"
+		os.WriteFile(condScript, []byte(fmt.Sprintf("#!/bin/sh\necho start-cond >> %s\nexec sleep %s\n", sc.Log, sleepTag)), 0755)
+		stages := []*scheduler.Stage{
+			{Name: "t0", Task: longTask("t0", sc.Log, sleepTag, sc)},
+			{Name: "t1", Task: longTask("t1", sc.Log, sleepTag, sc), Condition: condScript},
+		}
+		g, err := scheduler.NewExecutionGraph(stages...)
+		if err != nil {
+			fmt.Fprintln(os.Stderr, err)
+			os.Exit(3)
+		}
+		sd := scheduler.NewScheduler(r)
+		sd.VerifSetPause(time.Millisecond)
+		schedDone := make(chan error, 1)
+		go func() { schedDone <- sd.Schedule(g) }()
+		if !waitMarkers(sc.Log, []string{"start-cond"}, 5*time.Second) {
+			obs.Note = "the stage condition did not start"
+		}
+		appendLine(sc.Log, "CANCEL-CALLED")
+		obs.CancelReturnedMs = timedCancel(sd.Cancel)
+		appendLine(sc.Log, "CANCEL-RETURNED")
+		if obs.CancelReturnedMs < 0 {
+			emit()
+			os.Exit(0)
+		}
+		select {
+		case <-schedDone:
+			obs.ScheduleReturned = true
+		case <-time.After(bound):
+		}
+		obs.RunsReturned = obs.ScheduleReturned
+		for _, st := range stages {
+			obs.RunErrs = append(obs.RunErrs, st.ReadStatus() != scheduler.StatusDone && st.ReadStatus() != scheduler.StatusSkipped)
+		}
+		obs.LateRunErr = true
 	case "sched-precancel":
 		// the cancellation has COMPLETED before the pipeline is run: nothing of it starts - no task, no stage condition -
 		// no stage ends as if it had succeeded, and the run returns
@@ -605,6 +643,8 @@ func genCancelScenarios(tier string, rng *rand.Rand) []cancelScenario {
 	// a cancellation that arrives while a task's condition is being evaluated
 	out = append(out, cancelScenario{Mode: "runner", Inflight: 1, Point: "in-condition"}, cancelScenario{Mode: "runner", Inflight: 2, Point: "in-condition", Allow: true},
 		cancelScenario{Mode: "sched", Inflight: 1, Waiting: 1, Point: "in-condition"})
+	// ... or while the scheduling loop is evaluating the condition of a stage
+	out = append(out, cancelScenario{Mode: "sched-in-stage-condition", Point: "in-command"})
 	// a cancellation that completed before the pipeline is run
 	out = append(out, cancelScenario{Mode: "sched-precancel", Point: "in-command"}, cancelScenario{Mode: "sched-precancel", Point: "in-command", Nested: true})
 	// the same inside a pipeline included by a stage of the pipeline being run
